@@ -875,13 +875,16 @@ def gen_same_session_program(rng):
     p = Prog(); p.kind = 'inject'; p.exact_only = True
     p.sources = [0]
     g = 10
-    mode = rng.choice(['read-then-write', 'read-then-write', 'write-then-read'])
+    mode = rng.choice(['read-then-write', 'read-then-write', 'write-then-read', 'write-then-write'])
     # task 0 touches g and then aborts (panics itself, or requires a task that panics)
     tail = ('P',) if rng.random() < 0.5 else ('Q', 3, 0, ('T', ('a',)))
     p.tasks[3] = ('P',)
     if mode == 'read-then-write':
         p.tasks[0] = ('R', g, 0, tail)
         p.tasks[1] = ('R', 0, 0, ('W', g, 0, ('k', 3), ('D',)))
+    elif mode == 'write-then-write':             # the aborted task keeps its recorded write: another writer is an overlap, also when retried
+        p.tasks[0] = ('W', g, 0, ('k', 3), tail)
+        p.tasks[1] = ('R', 0, 0, ('W', g, 0, ('k', 4), ('D',)))
     else:
         p.tasks[0] = ('W', g, 0, ('k', 3), tail)
         p.tasks[1] = ('R', g, 0, ('T', ('a',)))
@@ -891,7 +894,13 @@ def gen_same_session_program(rng):
     else:
         second = 1
     p.generated = {g: (None, 0)}
-    steps = [['E', '0', str(rng.randint(0, 3))], ['E', str(g), '5'], ['Z', '2', 'q', '0', 'q', str(second)]]
+    ops = ['q', '0', 'q', str(second)]
+    if rng.random() < 0.5:
+        ops += ['q', str(second)]          # the rejected build is simply tried again in the same session: it must be rejected again
+        if rng.random() < 0.4: ops += ['q', str(second)]
+    steps = [['E', '0', str(rng.randint(0, 3))], ['E', str(g), '5'], ['Z', str(len(ops) // 2)] + ops]
+    if rng.random() < 0.5:
+        steps.append(['S', '1', 'q', str(second)])      # ... and in a new session
     return p, steps, {}
 
 
